@@ -187,7 +187,11 @@ func TestPropBalancer(t *testing.T) {
 					return big.NewInt(1)
 				case 1: // more than half the reserve
 					v := new(big.Int).Mul(B, big.NewInt(rapid.Int64Range(50, 300).Draw(rt, label+"Pct")))
-					return v.Quo(v, big.NewInt(100)).Add(v, big.NewInt(1))
+					v.Quo(v, big.NewInt(100)).Add(v, big.NewInt(1))
+					if v.BitLen() > 250 { // sdk.Int holds 256 bits: an amount the message type cannot carry is not an input
+						v.SetBit(new(big.Int), 250, 1)
+					}
+					return v
 				default:
 					v := new(big.Int).Mul(B, big.NewInt(rapid.Int64Range(1, 1_000_000).Draw(rt, label+"Ppm")))
 					v.Quo(v, big.NewInt(1_000_000))
